@@ -15,6 +15,7 @@
 import YkProofs.ConfMain
 import YkProofs.ConfOrder
 import YkProofs.ConfRules
+import YkProofs.ConfPerm
 namespace Yk.C15
 open Yk Yk.Res Yk.Conf
 
@@ -221,11 +222,56 @@ theorem resources_independent_of_map_order {m m' : SMap} (hp : m.Perm m') (hn : 
     | .error e, .error e' => e = e'
     | _, _ => False := parseConf_perm hp hn
 
-/-- … and the comparison the validator makes between two resources only depends on these quantities.  (`validate` itself is
-    a function of the tree; the correspondence run validates every document under re-ordered mappings.) -/
+/-- … and the comparison the validator makes between two resources only depends on these quantities. -/
 theorem comparison_independent_of_map_order {p p' c c' : Res} (hc : wf c = true) (hc' : wf c' = true)
     (hp : ∀ k, p.get? k = p'.get? k) (hcc : ∀ k, c.get? k = c'.get? k) :
     fitInMaxUndef (some p) (some c) = fitInMaxUndef (some p') (some c') := fitInMaxUndef_ext hc hc' hp hcc
+
+/-- `validate_independent_of_map_order`.  `PsRel ps ps'`: the two configurations are the same except for the ORDER OF THE
+    ENTRIES of their map-typed fields — max and guaranteed of every queue, `maxresources` of every limit (of queues and of
+    the partition), the resources and properties of every child template, the properties of every queue, the resource
+    weights; queues, limits and rules are lists and keep their order.  `PsKeys ps`: the walked maps have unique keys (they
+    are Go maps).  Then validation gives the same verdict: both are rejected with the SAME ERROR CLASS, or both are accepted
+    and the rewritten configurations are again the same up to the order of map entries.  No side condition on the error
+    class is needed: every map walk of the validator (NewResourceFromConf, the weights loop) has a single error class,
+    and reflect.DeepEqual compares maps as maps. -/
+theorem validate_independent_of_map_order {ps ps' : List Part} (h : PsRel ps ps') (k : PsKeys ps) :
+    match validate ps, validate ps' with
+    | .ok o, .ok o' => PsRel o o'
+    | .error e, .error e' => e = e'
+    | _, _ => False := by
+  have := validate_congr h k
+  cases h1 : validate ps <;> cases h2 : validate ps' <;> rw [h1, h2] at this <;> simp only [VRel] at this <;> simp only <;> exact this
+
+/-- The verdict and the error class, spelled out. -/
+theorem validate_verdict_independent_of_map_order {ps ps' : List Part} (h : PsRel ps ps') (k : PsKeys ps) :
+    ((∃ o, validate ps = .ok o) ↔ ∃ o', validate ps' = .ok o') ∧ ∀ e, validate ps = .error e ↔ validate ps' = .error e := by
+  have := validate_independent_of_map_order h k
+  cases h1 : validate ps <;> cases h2 : validate ps' <;> rw [h1, h2] at this <;> simp only at this
+  · subst this; simp
+  · simp
+
+/-- The same for every family of permutations: `σ` re-orders each string map (it may treat every map differently), `τ` the
+    resource weights; `mapPart σ τ` applies them to every map-typed field of a partition. -/
+theorem validate_under_every_permutation {ps : List Part} (σ : SMap → SMap) (τ : List (String × Bool) → List (String × Bool))
+    (hσ : ∀ m, (σ m).Perm m) (hτ : ∀ w, (τ w).Perm w) (k : PsKeys ps) :
+    ((∃ o, validate ps = .ok o) ↔ ∃ o', validate (ps.map (mapPart σ τ)) = .ok o') ∧
+    ∀ e, validate ps = .error e ↔ validate (ps.map (mapPart σ τ)) = .error e :=
+  validate_verdict_independent_of_map_order (PsRel.map hσ hτ ps) k
+
+/-- Below the error class, the MESSAGE of a rejected resource map is that of the first offending entry of the walk
+    (`firstParseErr`): it does not depend on the order when at most one entry of the map offends … -/
+theorem message_independent_of_map_order_one_offender {m m' : SMap} (hp : m.Perm m')
+    (h1 : ∀ q1 ∈ m, ∀ q2 ∈ m, errOf q1 ≠ none → errOf q2 ≠ none → q1 = q2) : firstParseErr m = firstParseErr m' :=
+  firstParseErr_perm hp h1
+
+/-- … and does depend on it with two: "invalid quantity" or "invalid quantity: overflow" for the same map.  (The real
+    validator behaves the same — Go's map iteration picks the entry; an observation, the verdict and the class are the
+    same; corpus/C15/conf-map-order.jsonl.) -/
+example : firstParseErr [("memory", "abc"), ("pods", "8Ei")] = some .invalid ∧
+    firstParseErr [("pods", "8Ei"), ("memory", "abc")] = some .overflow ∧
+    parseConf (some [("memory", "abc"), ("pods", "8Ei")]) = .error .parse ∧
+    parseConf (some [("pods", "8Ei"), ("memory", "abc")]) = .error .parse := by decide
 
 /-! ### witnesses: non-vacuity, and what the unchanged validator lets through -/
 
@@ -279,6 +325,29 @@ set_option maxRecDepth 100000 in
 example : acceptedAnd good (fun ps' => decide (loadNewAll ps' = .ok ()) && decide (loadRunningAll ["default"] ps' = .ok ()) &&
     !someRuleUnresolved ps' && ps'.all okSingleRoot &&
     (clauseList true ++ strictList).all (fun c => !someQueueViolates c.2 ps')) = true := by decide
+
+/-- the hypotheses of `validate_independent_of_map_order` are satisfiable: the maps of `good` have unique keys, and `good`
+    with every map reversed is accepted like `good` -/
+theorem dkeys_of {d : QD} (h1 : ((d.g.getD []).map Prod.fst).Nodup) (h2 : ((d.m.getD []).map Prod.fst).Nodup)
+    (h3 : d.limits.all (fun l => decide (((l.maxRes.getD []).map Prod.fst).Nodup)) = true) : DKeys d :=
+  ⟨h1, h2, fun l hl => by have := List.all_eq_true.mp h3 l hl; unfold KeysOK; simpa using this⟩
+
+set_option maxRecDepth 100000 in
+example : PsKeys good := by
+  intro p hp
+  simp only [good, List.mem_singleton] at hp
+  subst hp
+  refine ⟨?_, ?_⟩
+  · intro qs hqs
+    simp only [part] at hqs
+    injection hqs with hqs
+    subst hqs
+    simp only [QLKeys, QKeys, and_true]
+    refine ⟨?_, ⟨?_, ?_, ?_⟩, ?_⟩ <;> exact dkeys_of (by decide) (by decide) (by decide)
+  · intro l hl; simp [part] at hl
+
+set_option maxRecDepth 100000 in
+example : acceptedAnd (good.map (mapPart List.reverse List.reverse)) (fun ps' => ps'.all okSingleRoot) = true := by decide
 
 /-- the hypotheses of `rules_resolvable_partial` are satisfiable: the tree and the rule of `good` -/
 def goodRoot : QC := match good with | [p] => (rootOf p).getD (.mk (qd "x") []) | _ => .mk (qd "x") []
